@@ -62,7 +62,8 @@ class AwesomeyamlLoader(yaml.Loader):
 
         if not deep and not self.deep_construct and value is not aynode:
             if isinstance(node, yaml.SequenceNode):
-                self.state_generators.append(self._make_generator(value, aynode.extend))
+                # "value" might already be (partially) filled when wrapped, e.g. when the same yaml node is reached again through an alias, so only add what is missing
+                self.state_generators.append(self._make_generator(value, lambda v: aynode.extend(v[len(aynode):])))
             elif isinstance(node, yaml.MappingNode):
                 self.state_generators.append(self._make_generator(value, aynode.update))
 
